@@ -409,8 +409,14 @@ func (e *env) lexerForSp(text string, fromFile bool, spelling int) Lexer {
 	h := digestAdd(14695981039346656037, text)
 	path := dir + []string{"/", "/./", "//"}[spelling%3] + "src-" + strconv.FormatUint(h, 16) + ".txt"
 	if _, err := os.Stat(path); err != nil {
-		if err := os.WriteFile(path, []byte(text), 0o644); err != nil {
+		// several driver processes share this directory: the file must appear atomically
+		// (write a private temporary, then rename), never be seen half-written
+		tmp := dir + "/.tmp-" + strconv.Itoa(os.Getpid()) + "-" + strconv.FormatUint(h, 16)
+		if err := os.WriteFile(tmp, []byte(text), 0o644); err != nil {
 			panic("harness: cannot write source file: " + err.Error())
+		}
+		if err := os.Rename(tmp, dir+"/src-"+strconv.FormatUint(h, 16)+".txt"); err != nil {
+			panic("harness: cannot publish source file: " + err.Error())
 		}
 	}
 	l, err := e.g.NewLexerFile(path)
